@@ -64,6 +64,30 @@ pub fn register(l: &mut Vec<Obl>) {
             r.goal("improved_equal", x.improved_delta_e(y).close(lx.improved_delta_e(ly), 1e-4));
             r
         });
+    obl!(l; "c09_cam16_ucs_delta_e", "C09", Tier::Quick,
+        "CAM16-UCS: Delta E of two J'a'b' colours is the Euclidean distance sqrt(dJ'^2 + da'^2 + db'^2) (1e-9 on its square), the improved form is 1.41 dE^0.63 (Huang et al. 2015; compared as its 1/0.315-th power being dE^2 up to the constant: same uninterpreted power of the same radicand), both are symmetric and zero for identical colours, and the polar J'M'h versions equal the rectangular ones on the converted colours (1e-4)",
+        ["<Cam16UcsJab as DeltaE>::delta_e", "<Cam16UcsJab as ImprovedDeltaE>::improved_delta_e", "<Cam16UcsJmh as DeltaE>::delta_e", "<Cam16UcsJmh as ImprovedDeltaE>::improved_delta_e", "<Cam16UcsJab as FromColorUnclamped<Cam16UcsJmh>>"],
+        [var("j1", 0.0, 100.0), var("a1", -50.0, 50.0), var("b1", -50.0, 50.0), var("j2", 0.0, 100.0), var("a2", -50.0, 50.0), var("b2", -50.0, 50.0), var("h1", -180.0, 180.0), var("h2", -180.0, 180.0)];
+        |v| {
+            use palette::cam16::{Cam16UcsJab, Cam16UcsJmh};
+            use palette::convert::FromColorUnclamped;
+            let mut r = Res::<B>::new();
+            let (x, y) = (Cam16UcsJab::<T>::new(v[0], v[1], v[2]), Cam16UcsJab::<T>::new(v[3], v[4], v[5]));
+            let (dj, da, db) = (v[0] - v[3], v[1] - v[4], v[2] - v[5]);
+            let d2 = dj * dj + da * da + db * db;
+            let d = x.delta_e(y);
+            r.goal("delta_e_is_euclidean", (d * d).close(d2, 1e-9) & T::k(0.0).le(d));
+            r.goal("delta_e_symmetric", d.close(y.delta_e(x), 1e-9));
+            r.goal("delta_e_identical_is_zero", x.delta_e(x).close(T::k(0.0), 1e-9));
+            r.goal("improved_closed_form", x.improved_delta_e(y).close(T::k(1.41) * d2.powf_(T::k(0.63 * 0.5)), 1e-9));
+            r.goal("improved_symmetric", x.improved_delta_e(y).close(y.improved_delta_e(x), 1e-9));
+            // polar versions: M' = |a'|, |b'| reused as colourfulness, symbolic hues
+            let (p, q) = (Cam16UcsJmh::<T>::new(v[0], v[1].abs_(), v[6]), Cam16UcsJmh::<T>::new(v[3], v[4].abs_(), v[7]));
+            let (pr, qr) = (Cam16UcsJab::<T>::from_color_unclamped(p), Cam16UcsJab::<T>::from_color_unclamped(q));
+            r.goal("polar_delta_e_equals_rectangular", p.delta_e(q).close(pr.delta_e(qr), 1e-4));
+            r.goal("polar_improved_equals_rectangular", p.improved_delta_e(q).close(pr.improved_delta_e(qr), 1e-4));
+            r
+        });
     obl!(l; "c09_wcag_contrast", "C09", Tier::Quick,
         "WCAG 2.1 relative contrast of linear RGB colours in [0,1]^3 is (Lmax + 0.05)/(Lmin + 0.05) with L = 0.2126 R + 0.7152 G + 0.0722 B (within 0.05 of the ratio: palette uses the sRGB matrix row 0.2126729/0.7151522/0.0721750, of which the WCAG constants are the 4-digit rounding), symmetric, in [1, 21] (1e-9: the relative luminance is clamped to [0,1]), and each threshold predicate holds exactly when the ratio reaches its constant (4.5, 3, 7, 4.5, 3)",
         ["Wcag21RelativeContrast::relative_contrast", "has_min_contrast_text", "has_min_contrast_large_text", "has_enhanced_contrast_text", "has_enhanced_contrast_large_text", "has_min_contrast_graphics", "relative_luminance"],
